@@ -23,16 +23,30 @@ TI = "tdigest::TDigestInner"
 
 
 def run(ctx):
+    mg = structure_rules(ctx)
+    if mg is None:
+        return
+    # inputs of the criterion
+    from .C16 import insert_rules, conservation
+    insert_rules(ctx)
+    conservation(ctx, mg)
+    from .C19 import run_clear_rules
+    run_clear_rules(ctx, only_adt=TI, floor=1)
+
+
+def structure_rules(ctx):
+    """R04-merge-criterion, R04-sorted-input, R04-scale-clamp, R04-backlog-policy; returns the merge fn (None: anchor missing).
+    Also run by C11: the O(delta + max_backlog_size) centroid bound presupposes the same structure."""
     prog = ctx.prog
     mg = ctx.anchor(TI + "::merge")
     if mg is None:
-        return
+        return None
     selfp = ("param", 1, "self")
     tb = TermBuilder(mg, prog)
     heads = mg.loop_heads()
     if len(heads) != 1:
         ctx.shape("R04-merge-criterion", mg.key, mg, "merge has %d loops, expected the single fuse loop" % len(heads))
-        return
+        return mg
     h = heads[0]
     sf = ("field", selfp, "scale_function")
     n = ("field", selfp, "n_samples")
@@ -48,7 +62,7 @@ def run(ctx):
             qlim = l
     if not cur or q0 is None or qlim is None:
         ctx.shape("R04-merge-criterion", mg.key, mg, "cannot identify current / q_0 / q_limit among the loop-carried locals of merge")
-        return
+        return mg
     cur_lv, q0_lv, ql_lv = ("loopvar", cur[0], h), ("loopvar", q0, h), ("loopvar", qlim, h)
 
     def limit_of(q):
@@ -160,12 +174,6 @@ def run(ctx):
         ctx.check(okd, "R04-scale-clamp", new.key, new, "constructor asserts delta > 1 and finite", "%s::new does not establish delta > 1 && finite" % k)
     ctx.floor("R04-scale-clamp", n_sf, 4, "scale functions")
 
-    # inputs of the criterion
-    from .C16 import insert_rules, conservation
-    insert_rules(ctx)
-    conservation(ctx, mg)
-    from .C19 import run_clear_rules
-    run_clear_rules(ctx, only_adt=TI, floor=1)
     # backlog policy: merged when it exceeds max_backlog_size
     iw = ctx.anchor(TI + "::insert_weighted")
     if iw is not None:
@@ -187,3 +195,5 @@ def run(ctx):
             else:
                 seen[g] += 1
         ctx.check(not probs and seen[True] and seen[False], "R04-backlog-policy", iw.key, iw, "merge() exactly when backlog.len() > max_backlog_size", "; ".join(sorted(set(probs))[:2]))
+
+    return mg
